@@ -457,7 +457,7 @@ var advValues = []string{
 	"OR", "or", "AND", "and", "has", "is", "(", ")", "()", `("`, `")`, `)"`, " ", "", "  x  ", "a b", "new\nline", "tab\there", "cr\rx",
 	"\U0001F600", "é", "日本", "a\u0301", "\u00a0", "\u0085", "\x00", "\x7f", "\ufffd", "\ufeff", "\u00ad", "\u2028",
 	"123", "1.5", "1.", ".5", "00", "007.50", "1.2.3", "١٢", "１２", "-1", "+1", "1e5",
-	`\x5c`, `\x5c"`, `\\x5c`, `a\x5c`, `A`, `\n`, `\'`, `'`, "`", "name = x", "name=x", "fields.a = 1", "tel:+1234", "x:y", "a.b:c",
+	`\x5c`, `\x5c"`, `\\x5c`, `a\x5c`, `A`, `\n`, `\'`, `'`, "`", "name = x", "name=x", "fields.a = 1", "tel:+1234", "TEL:+1234", "WhatsApp:12065551212", "x:y", "a.b:c",
 	"=", "!=", "~", ">", "<=", "@", "a@b.com", "+12065551212", "12-34", "bob", "Bob Smith", "ümlaut", `\\\`, `\\\\`, `\"\`, `"\\`,
 }
 
@@ -485,7 +485,7 @@ var fieldKeys = []string{"age", "gender", "x", "a1", "_u", "or", "and", "has", "
 var otherKeys = []string{"Ꭰ", "Ꭰbc", "İx", "ǅ", "ẞ", "Ω", "K"}
 var comparators = []string{"=", "!=", "~", ">", "<", ">=", "<=", "has", "is", "HAS", "Is", "hAs", "IS"}
 var bareTexts = []string{"bob", "Bob", "123", "12.5", "0", "+12065551212", "12-34-56", "1234", "a@b.com", "tel:+1234", "mailto:a@b.com",
-	"twitter:bob", "x:y", "X:y", "a.b:c", "o'neil", "a/b", "_", "-", ".", "2021-03-14", "14/03/2021", "日本", "or1", "android", "isx", "é",
+	"twitter:bob", "x:y", "X:y", "a.b:c", "TEL:+12065551212", "Tel:+1234", "WhatsApp:12065551212", "MAILTO:a@b.com", "Twitter:bob", "o'neil", "a/b", "_", "-", ".", "2021-03-14", "14/03/2021", "日本", "or1", "android", "isx", "é",
 	"12345678", "+250788123123", "5", "-5", "+5", "007", "99999999999999999999", "a:b:c", "tel:", ":x"}
 
 func randCase(r *hx.Rand, s string) string {
@@ -919,7 +919,11 @@ func runCqlStreams(o *hx.Opts, res *hx.Result, r *hx.Rand) {
 	emitTemplateCertificates(o, res)
 
 	// ---- corpus: inputs of earlier findings first -------------------------------------------------------
-	corpus := []string{`name = "a\\" AND name = "b"`, `name = "a\x5c" AND name = "b"`, `"name = x OR id:5"`, `"A b:c"`, `X:y`, `a.b:c`, `fields.Ꭰ = 1`, `Ꭰ = 1`,
+	corpus := []string{`name = "a\\" AND name = "b"`, `name = "a\x5c" AND name = "b"`, `"name = x OR id:5"`, `"A b:c"`, `X:y`, `a.b:c`,
+		// a KNOWN URN scheme written with upper-case letters in implicit position (bare and quoted, alone and combined): not a
+		// URN condition (the scheme would become a property key that re-parses lower-cased)
+		`TEL:+12065551212`, `Tel:+12065551212 OR name = "Bob"`, `"WhatsApp:12065551212"`, `MailTo:a@b.com AND fields.x = 1`,
+		`("TWITTER:bob" OR Telegram:12345) AND age > 3`, `tEL:+250788123123 FaceBook:1234567`, `fields.Ꭰ = 1`, `Ꭰ = 1`,
 		`urns.tel = 123`, `tel = 123`, `"\"`, `a b AND c OR d e`, `(a OR b) (c OR d) AND e`, `name = "x` + "\n" + `y"`, `name="\q"`, `12065551212`, `name ~ "`, `name = ""`,
 		`fields.or = "or" or or = or`, `x = 1 OR (y = 2 AND z = 3) OR w = 4`, `((a))`, `()`, ``, ` `, `name = "a" "b"`, `name = "a""b"`}
 	for _, text := range corpus {
